@@ -118,6 +118,20 @@ pub fn run_action(spec: &ChildSpec) -> anyhow::Result<Value> {
             circuit_builder::verif_commit_staging_dir(&staging, &output)?;
             Ok(Value::Null)
         }
+        // the builder's own sequence without the multi-second circuit build: create the staging directory
+        // with the real routine, fill it with a prepared set, publish it
+        "stage_and_commit" => {
+            let output = PathBuf::from(arg_str(spec, "output"));
+            let source = PathBuf::from(arg_str(spec, "source"));
+            let staging = circuit_builder::verif_create_staging_dir(&output)?;
+            let mut names: Vec<_> = std::fs::read_dir(&source)?.flatten().map(|e| e.file_name()).collect();
+            names.sort();
+            for n in names {
+                std::fs::write(staging.join(&n), std::fs::read(source.join(&n))?)?;
+            }
+            circuit_builder::verif_commit_staging_dir(&staging, &output)?;
+            Ok(Value::Null)
+        }
         "create_staging" => {
             let output = PathBuf::from(arg_str(spec, "output"));
             let p = circuit_builder::verif_create_staging_dir(&output)?;
